@@ -8,7 +8,8 @@
     x/crypto's standard server are an arbitrary environment [e : env]. *)
 From Verif Require Import Lib.Base Lib.Bytes Lib.Wire Generated.YubiAgentGen
   Model.Frames Model.Wire Model.Serve Model.C12Check
-  Proofs.FramesProofs Proofs.WireProofs Proofs.ServeProofs.
+  Proofs.FramesProofs Proofs.WireProofs Proofs.ServeProofs
+  Model.AgentStd Model.ServeStd Proofs.ServeStdProofs.
 Local Open Scope N_scope.
 
 (** ** Regenerated facts = the documented ones *)
@@ -140,3 +141,21 @@ Example c12_ex_bound :
   snd (match serve ex_env (stream_of [[32]] ++ [255; 255; 255; 255]) with Val r => r | Panic => ([], EndNil) end)
     = EndErr ETooLarge.
 Proof. split; vm_compute; reflexivity. Qed.
+
+(** ** With x/crypto's standard server made concrete ([Model.ServeStd]): a
+    standard-class frame ends the connection only when that server panics on
+    it - which takes an add-identity request (a key constraint cut short) and
+    is the panic serveStandardRequest recovers from - and is answered with
+    exactly one frame otherwise, whatever its bytes. *)
+Theorem c12_std_frame_ends : forall e ag i code tail,
+  spec_class code = 6 ->
+  handle (with_std e ag) i (code :: tail) = Val (SEnd EStd) ->
+  dec_req (code :: tail) = Panic /\ (code = 17 \/ code = 25).
+Proof. exact std_frame_ends. Qed.
+Print Assumptions c12_std_frame_ends.
+
+Theorem c12_std_frame_answered : forall e ag i code tail,
+  spec_class code = 6 -> dec_req (code :: tail) <> Panic ->
+  exists rep, handle (with_std e ag) i (code :: tail) = Val (SReply (6, rep)).
+Proof. exact std_frame_otherwise_answered. Qed.
+Print Assumptions c12_std_frame_answered.
